@@ -1,57 +1,58 @@
-(* C14 phase 2: agreement of the two reader models on modules without blackbox instances (part C2) *)
+(* C14 phase 2: agreement of the two reader models on the documented subset (part C2) *)
 From stdpp Require Import strings gmap sets pretty.
 From CG Require Import Model.FastVerilog Proofs.FastVerilogProofs Gen.Gen_fastv.
-From CG Require Import Proofs.FvA0 Proofs.FvA1 Proofs.FvA2 Proofs.FvA3 Proofs.FvA4 Proofs.FvA5 Proofs.FvA6 Proofs.FvA7 Proofs.FvA8 Proofs.FvA9 Proofs.FvA10 Proofs.FvB1 Proofs.FvB2 Proofs.FvB3 Proofs.FvB4 Proofs.FvB5 Proofs.FvC1.
+From CG Require Import Proofs.FvA0 Proofs.FvA1 Proofs.FvA2 Proofs.FvP1 Proofs.FvE1 Proofs.FvE2 Proofs.FvE3 Proofs.FvE4 Proofs.FvA3 Proofs.FvE5 Proofs.FvE6 Proofs.FvE7 Proofs.FvA4 Proofs.FvA5 Proofs.FvA6 Proofs.FvA7 Proofs.FvA8 Proofs.FvA9 Proofs.FvA10 Proofs.FvB1 Proofs.FvB2 Proofs.FvB3 Proofs.FvB4 Proofs.FvB5 Proofs.FvC1.
 Open Scope string_scope.
 
 Section fin2.
   Variables (a : ast) (bbs : list bbdef).
   Hypothesis Hsub : in_subset a bbs = true.
-  Hypothesis Hni : no_inst a = true.
   Let HF := in_subset_facts a bbs Hsub.
   Variables (t0 t1 : string).
   Hypothesis Hfr : t0 ∉ idents a ∧ t1 ∉ idents a.
   Hypothesis Hne : t0 ≠ t1.
-  Let SS := sF t0 t1 a.
-  Let U := a_items a ≫= it_uses t0 t1.
-  Notation carries := (carries a t0 t1).
+  Hypothesis Hdot : dotted t0 = false ∧ dotted t1 = false.
+  Let SS := sF t0 t1 bbs a.
+  Let U := a_items a ≫= uses t0 t1 bbs.
+  Let Hfr3 : t0 ∉ idents a ∧ t1 ∉ idents a ∧ t1 ∉ idents a := conj (proj1 Hfr) (conj (proj2 Hfr) (proj2 Hfr)).
+  Notation carries := (carries a bbs t0 t1).
 
-  Lemma driver_in_idents o v : sG SS !! o = Some v → o ∈ idents a ∧ o ∉ decl_inputs a.
-  Proof. intros (it & Hit & Hv)%(G_iff a bbs Hsub Hni). by eapply driver_ident. Qed.
+  Lemma key_ok o v : sG SS !! o = Some v → o ∉ decl_inputs a ∧ (dotted o = true ∨ o ∈ idents a).
+  Proof. by apply (G_key a bbs Hsub t0 t1 Hfr). Qed.
+  Lemma key_ne o v t : sG SS !! o = Some v → t ∉ idents a → dotted t = false → o ≠ t.
+  Proof. intros HG Ht Hd ->. destruct (key_ok _ _ HG) as [_ [?|?]]; congruence. Qed.
 
-  Lemma drop_step g t : carries g → t ∉ idents a →
+  Lemma drop_step g t : carries g → t ∉ idents a → dotted t = false →
     carries (drop_unused g t) ∧ ∀ m, drop_unused g t !! m = if decide (m = t ∧ t ∉ U) then None else g !! m.
   Proof.
-    intros Hc Ht.
+    intros Hc Ht Hdt.
     assert (Hl : ∀ m, drop_unused g t !! m = if decide (m = t ∧ t ∉ U) then None else g !! m).
-    { intros m. rewrite drop_unused_lookup. pose proof (used_iff a bbs Hsub Hni t0 t1 Hfr Hne g t Hc) as Hu.
+    { intros m. rewrite drop_unused_lookup. pose proof (used_iff a bbs Hsub t0 t1 Hfr Hne g t Hdt Hc) as Hu.
       destruct (decide (m = t ∧ fanout g t = ∅)) as [[-> Hf]|Hn].
       - rewrite decide_True; [done|]. split; [done|]. by apply Hu.
       - rewrite decide_False; [done|]. intros [-> Hx]. apply Hn. split; [done|]. by apply Hu. }
     split; [|done]. destruct Hc as [H1 H2]. split.
     - intros o ty fis HG. destruct (H1 o ty fis HG) as (i & Hi & Hfi). exists i. split; [|done]. rewrite Hl.
-      rewrite decide_False; [done|]. intros [-> _]. by destruct (driver_in_idents _ _ HG).
+      rewrite decide_False; [done|]. intros [Heq _]. by apply (key_ne _ _ t HG).
     - intros m i. rewrite Hl. destruct (decide (m = t ∧ t ∉ U)); [done|]. apply H2.
   Qed.
 
   Lemma uses_elem u : u ∈ U → u = t0 ∨ u = t1 ∨ (u ∈ idents a ∧ (sG SS !! u ≠ None ∨ u ∈ decl_inputs a)).
   Proof.
     intros (it & Hu & Hit)%elem_of_list_bind.
-    destruct (uses_sub a bbs t0 t1 HF Hni it u Hit Hu) as [?|[?|Hiu]]; [auto|auto|]. right. right.
+    destruct (uses_sub a bbs t0 t1 t1 HF Hfr3 it u Hit Hu) as [?|[?|Hiu]]; [auto|auto|]. right. right.
     assert (Hd : u ∈ a_items a ≫= item_drivers bbs ∨ u ∈ decl_inputs a) by (apply (sf_uses a bbs HF); apply elem_of_list_bind; eauto).
     destruct Hd as [Hd|Hi].
-    - rewrite (drivers_eq a bbs t0 t1) in Hd by done. apply elem_of_list_bind in Hd as (it' & Hd & Hit').
-      unfold it_driver in Hd. destruct (gate_view t0 t1 it') as [[o' v']|] eqn:Ev; [|by apply elem_of_nil in Hd].
-      apply elem_of_list_singleton in Hd as ->.
-      pose proof (proj2 (G_iff a bbs Hsub Hni t0 t1 o' v') (ex_intro _ it' (conj Hit' Ev))) as HG.
-      split; [by destruct (driver_in_idents _ _ HG)|]. left. unfold SS. intros Hx. rewrite Hx in HG. done.
+    - apply elem_of_list_bind in Hd as (it' & Hd & Hit'). split; [by eapply (drivers_idents a bbs)|].
+      pose proof (drivers_sub a bbs t0 t1 t1 HF Hfr3 it' u Hit' Hd) as Hk. unfold it_driver in Hk. apply elem_of_list_fmap in Hk as ([o' v'] & Heq & Hv'). simpl in Heq. subst o'.
+      pose proof (proj2 (G_iff a bbs Hsub t0 t1 Hfr u v') (ex_intro _ it' (conj Hit' Hv'))) as HG. left. unfold SS. intros Hx. rewrite Hx in HG. done.
     - split; [|by right]. unfold decl_inputs in Hi. apply elem_of_list_bind in Hi as (it' & Hi & Hit'). eapply idents_item; [exact Hit'|].
       destruct it'; try (by apply elem_of_nil in Hi). done.
   Qed.
 
   (* fast reader: marking + dropping the unused constants gives finT *)
   Lemma fast_fin g3 g4 : (∀ m, g3 !! m = lookF t0 t1 SS m) → (∀ m, g4 !! m = mark (decl_outputs a) g3 m) →
-    ∀ m, drop_unused (drop_unused g4 t0) t1 !! m = finT t0 t1 a m.
+    ∀ m, drop_unused (drop_unused g4 t0) t1 !! m = finT t0 t1 bbs a m.
   Proof.
     intros Hg3 Hg4. destruct Hfr as [Hf0 Hf1].
     assert (HsI : ∀ m, m ∈ sI SS ↔ m ∈ decl_inputs a).
@@ -59,8 +60,8 @@ Section fin2.
     unfold SS in *.
     assert (Hc4 : carries g4).
     { split.
-      - intros o ty fis HG. destruct (driver_in_idents _ _ HG) as [Hoi _]. rewrite Hg4. unfold mark. rewrite Hg3. unfold lookF.
-        rewrite decide_False by (intros ->; done). rewrite decide_False by (intros ->; done). rewrite HG. simpl. eexists. split; [done|].
+      - intros o ty fis HG. rewrite Hg4. unfold mark. rewrite Hg3. unfold lookF.
+        rewrite decide_False by (by apply (key_ne _ _ t0 HG); [|apply Hdot]). rewrite decide_False by (by apply (key_ne _ _ t1 HG); [|apply Hdot]). rewrite HG. simpl. eexists. split; [done|].
         by destruct (decide (o ∈ decl_outputs a)).
       - intros m i. rewrite Hg4. unfold mark. rewrite Hg3. intros (i0 & Hi0 & ->)%fmap_Some.
         assert (Hfi : ∀ b : bool, n_fi (if b then set_out true i0 else i0) = n_fi i0) by (by intros []).
@@ -68,10 +69,10 @@ Section fin2.
         rewrite Hfi'. clear Hfi Hfi'. unfold lookF in Hi0.
         destruct (decide (m = t0)); [injection Hi0 as <-; by left|].
         destruct (decide (m = t1)); [injection Hi0 as <-; by left|].
-        destruct (sG (sF t0 t1 a) !! m) as [[ty fis]|] eqn:E.
+        destruct (sG (sF t0 t1 bbs a) !! m) as [[ty fis]|] eqn:E.
         + injection Hi0 as <-. right. exists ty, fis. done.
-        + destruct (decide (m ∈ sI (sF t0 t1 a))); [|done]. injection Hi0 as <-. by left. }
-    destruct (drop_step g4 t0 Hc4 Hf0) as [Hc5 Hl5]. destruct (drop_step _ t1 Hc5 Hf1) as [_ Hl6].
+        + destruct (decide (m ∈ sI (sF t0 t1 bbs a))); [|done]. injection Hi0 as <-. by left. }
+    destruct (drop_step g4 t0 Hc4 Hf0 (proj1 Hdot)) as [Hc5 Hl5]. destruct (drop_step _ t1 Hc5 Hf1 (proj2 Hdot)) as [_ Hl6].
     intros m. rewrite Hl6, Hl5. unfold finT. fold U.
     destruct (decide (m = t0)) as [->|Hm0].
     { rewrite decide_False by (intros [? _]; done). destruct (decide (t0 ∈ U)).
@@ -86,20 +87,20 @@ Section fin2.
       - by rewrite decide_True. }
     rewrite decide_False by tauto. rewrite decide_False by tauto. rewrite Hg4. unfold mark. rewrite Hg3. unfold lookF.
     rewrite decide_False by done. rewrite decide_False by done.
-    destruct (sG (sF t0 t1 a) !! m) as [[ty fis]|]; simpl.
+    destruct (sG (sF t0 t1 bbs a) !! m) as [[ty fis]|]; simpl.
     - destruct (decide (m ∈ decl_outputs a)); [rewrite bool_decide_eq_true_2 by done; reflexivity|rewrite bool_decide_eq_false_2 by done; reflexivity].
-    - destruct (decide (m ∈ sI (sF t0 t1 a))) as [Hi|Hi].
+    - destruct (decide (m ∈ sI (sF t0 t1 bbs a))) as [Hi|Hi].
       + rewrite decide_True by (by apply HsI). simpl.
         destruct (decide (m ∈ decl_outputs a)); [rewrite bool_decide_eq_true_2 by done; reflexivity|rewrite bool_decide_eq_false_2 by done; reflexivity].
       + rewrite decide_False by (by rewrite <- HsI). done.
   Qed.
 
   (* full reader: the same function (placeholders for floating nets do not occur inside the subset; tie_x is never used) *)
-  Lemma full_fin tx g0 g1 : tx ∉ idents a → tx ≠ t0 → tx ≠ t1 →
+  Lemma full_fin tx g0 g1 : tx ∉ idents a → dotted tx = false → tx ≠ t0 → tx ≠ t1 →
     (∀ m, g0 !! m = look t0 t1 tx SS m) → (∀ m, g1 !! m = mark (decl_outputs a) g0 m) →
-    ∀ m, drop3 g1 t0 t1 tx !! m = finT t0 t1 a m.
+    ∀ m, drop3 g1 t0 t1 tx !! m = finT t0 t1 bbs a m.
   Proof.
-    intros Hfx Hx0 Hx1 Hg0 Hg1. destruct Hfr as [Hf0 Hf1].
+    intros Hfx Hdx Hx0 Hx1 Hg0 Hg1. pose proof Hfr as [Hf0 Hf1].
     assert (HsI : ∀ m, m ∈ sI SS ↔ m ∈ decl_inputs a).
     { intros m. unfold SS, sF. rewrite stp_fold_I, (inputs_eq a). cbn [sI s0]. set_solver. }
     assert (HsU : ∀ m, m ∈ sU SS ↔ m ∈ U).
@@ -109,8 +110,10 @@ Section fin2.
     unfold SS in *.
     assert (Hc1 : carries g1).
     { split.
-      - intros o ty fis HG. destruct (driver_in_idents _ _ HG) as [Hoi _]. rewrite Hg1. unfold mark. rewrite Hg0.
-        rewrite look_nontie by (unfold tie; intros [Hq|[Hq|Hq]]; subst o; done). unfold look_rest. rewrite HG. simpl. eexists. split; [done|].
+      - intros o ty fis HG. rewrite Hg1. unfold mark. rewrite Hg0.
+        assert (Hnt : ¬ tie t0 t1 tx o).
+        { unfold FvA3.tie. intros [Hq|[Hq|Hq]]; [apply (key_ne _ _ t0 HG)|apply (key_ne _ _ t1 HG)|apply (key_ne _ _ tx HG)]; try done; apply Hdot. }
+        rewrite look_nontie by done. unfold look_rest. rewrite HG. simpl. eexists. split; [done|].
         by destruct (decide (o ∈ decl_outputs a)).
       - intros m i. rewrite Hg1. unfold mark. rewrite Hg0. intros (i0 & Hi0 & ->)%fmap_Some.
         assert (Hfi' : n_fi (if decide (m ∈ decl_outputs a) then set_out true i0 else i0) = n_fi i0) by (by destruct (decide _)).
@@ -118,11 +121,11 @@ Section fin2.
         destruct (decide (m = t0)); [injection Hi0 as <-; by left|].
         destruct (decide (m = t1)); [injection Hi0 as <-; by left|].
         destruct (decide (m = tx)); [injection Hi0 as <-; by left|].
-        destruct (sG (sF t0 t1 a) !! m) as [[ty fis]|] eqn:E.
+        destruct (sG (sF t0 t1 bbs a) !! m) as [[ty fis]|] eqn:E.
         + injection Hi0 as <-. right. exists ty, fis. done.
-        + destruct (decide (m ∈ sI (sF t0 t1 a))); [injection Hi0 as <-; by left|].
-          destruct (decide (m ∈ sU (sF t0 t1 a))); [injection Hi0 as <-; by left|done]. }
-    destruct (drop_step g1 t0 Hc1 Hf0) as [Hc2 Hl2]. destruct (drop_step _ t1 Hc2 Hf1) as [Hc3 Hl3]. destruct (drop_step _ tx Hc3 Hfx) as [_ Hl4].
+        + destruct (decide (m ∈ sI (sF t0 t1 bbs a))); [injection Hi0 as <-; by left|].
+          destruct (decide (m ∈ sU (sF t0 t1 bbs a))); [injection Hi0 as <-; by left|done]. }
+    destruct (drop_step g1 t0 Hc1 Hf0 (proj1 Hdot)) as [Hc2 Hl2]. destruct (drop_step _ t1 Hc2 Hf1 (proj2 Hdot)) as [Hc3 Hl3]. destruct (drop_step _ tx Hc3 Hfx Hdx) as [_ Hl4].
     intros m. unfold drop3. rewrite !drop_unused_full_eq, Hl4, Hl3, Hl2. unfold finT. fold U.
     destruct (decide (m = t0)) as [->|Hm0].
     { rewrite decide_False by (intros [? _]; done). rewrite decide_False by (intros [? _]; done). destruct (decide (t0 ∈ U)).
@@ -136,15 +139,15 @@ Section fin2.
         rewrite decide_False; [done|]. intros Ho. by destruct (outs_not_tie a t0 t1 (conj Hf0 Hf1) t1 Ho).
       - by rewrite decide_True. }
     destruct (decide (m = tx)) as [->|Hmx].
-    { rewrite decide_True by done. destruct (sG (sF t0 t1 a) !! tx) as [v|] eqn:E.
-      - by destruct (driver_in_idents _ _ E).
+    { rewrite decide_True by done. destruct (sG (sF t0 t1 bbs a) !! tx) as [v|] eqn:E.
+      - by destruct (key_ne _ _ tx E).
       - rewrite decide_False; [done|]. intros Hi. apply Hfx. unfold decl_inputs in Hi. apply elem_of_list_bind in Hi as (it' & Hi & Hit').
         eapply idents_item; [exact Hit'|]. destruct it'; try (by apply elem_of_nil in Hi). done. }
     rewrite decide_False by tauto. rewrite decide_False by tauto. rewrite decide_False by tauto. rewrite Hg1. unfold mark. rewrite Hg0.
     rewrite look_nontie by (unfold tie; tauto). unfold look_rest.
-    destruct (sG (sF t0 t1 a) !! m) as [[ty fis]|] eqn:E; simpl.
+    destruct (sG (sF t0 t1 bbs a) !! m) as [[ty fis]|] eqn:E; simpl.
     - destruct (decide (m ∈ decl_outputs a)); [rewrite bool_decide_eq_true_2 by done; reflexivity|rewrite bool_decide_eq_false_2 by done; reflexivity].
-    - destruct (decide (m ∈ sI (sF t0 t1 a))) as [Hi|Hi].
+    - destruct (decide (m ∈ sI (sF t0 t1 bbs a))) as [Hi|Hi].
       + rewrite decide_True by (by apply HsI). simpl.
         destruct (decide (m ∈ decl_outputs a)); [rewrite bool_decide_eq_true_2 by done; reflexivity|rewrite bool_decide_eq_false_2 by done; reflexivity].
       + rewrite (decide_False (P := m ∈ decl_inputs a)) by (intros Hq; apply Hi, HsI, Hq). rewrite decide_False; [done|].
